@@ -272,7 +272,9 @@ static void scenario(ygm::comm& comm, MPI_Comm mc, const std::string& name, cons
     };
     if (mode == "rswapk") {
       auto ra = ygm::container::detail::make_reducing_adapter(ma, Red());
-      while (seen < nb) { batch(ra); comm.barrier(); if (seen < nb) ma.swap(mb); }
+      // cf_barrier after swap(): map::swap has no exit synchronisation — a rank still inside its barrier would apply a
+      // reduction of a faster rank's next batch to the not-yet-swapped local map (a property of map::swap, not of the adapter)
+      while (seen < nb) { batch(ra); comm.barrier(); if (seen < nb) { ma.swap(mb); comm.cf_barrier(); } }
     } else {
       while (seen < nb) {
         { auto ra = ygm::container::detail::make_reducing_adapter(ma, Red()); batch(ra); }
